@@ -350,7 +350,12 @@ def step (st : St) (line : String) : St × String :=
             | some s => let (ck, rc) := slot.ck.timeLeeway (claimOf cl) s; (put ck, s!"rc={rc}")
             | none => (st, "badop")
           | ["setcb", prog] =>
-            if prog = "-" then
+            if prog = "@ctx" then
+              -- NULL callback, non-NULL context: the installed callback (kept as text in the slot) stays
+              let ck' : Checker := if slot.prog = "" then slot.ck else (slot.ck.setcb (some (progCb st slot.prog))).1
+              let (ck2, rc) := ck'.setcbCtx
+              ({ st with cks := st.cks.insert ci { slot with ck := { slot.ck with error := ck2.error, msg := ck2.msg } } }, s!"rc={rc}")
+            else if prog = "-" then
               ({ st with cks := st.cks.insert ci { ck := (slot.ck.setcb none).1, prog := "" } }, "rc=0")
             else
               -- the callback closes over the driver state *at call time*: stored as text, built in `verify`
@@ -443,7 +448,12 @@ def step (st : St) (line : String) : St × String :=
             | some s => let (b, rc) := slot.bl.timeOffset (claimOf cl) s; (put b, s!"rc={rc}")
             | none => (st, "badop")
           | ["setcb", prog] =>
-            if prog = "-" then ({ st with bls := st.bls.insert bi { bl := (slot.bl.setcb none).1, prog := "" } }, "rc=0")
+            if prog = "@ctx" then
+              if slot.prog = "" then
+                let (b2, rc) := slot.bl.setcbCtx
+                ({ st with bls := st.bls.insert bi { slot with bl := b2 } }, s!"rc={rc}")
+              else (st, "rc=0")
+            else if prog = "-" then ({ st with bls := st.bls.insert bi { bl := (slot.bl.setcb none).1, prog := "" } }, "rc=0")
             else ({ st with bls := st.bls.insert bi { bl := slot.bl, prog := prog } }, "rc=0")
           | [op, ty, nm, v, rp] =>
             if op = "hset" || op = "cset" then
